@@ -464,6 +464,7 @@ pub fn observe(root: &mut dyn Root) {
     let (len, is_empty, cap) = (g.len(), g.is_empty(), g.capacity());
     let contains: Vec<(usize, Option<bool>)> = keys.iter().map(|&k| (k, g.contains_key(k))).collect();
     with(|w| {
+        w.stats.o_group_view += 1;
         w.emit(Ev::Group(GroupOp::Observe { len, is_empty, cap }));
         let want = w.model.group.count();
         let o = pre(w, "view");
@@ -516,6 +517,7 @@ pub fn on_root_poll_end(w: &mut World, out: &Out) {
         return;
     }
     let stream = w.model.group.stream;
+    w.stats.o_lr_frames += 1;
     let frame = w.frame.clone();
     let lr = pre(w, "lr");
     // every polled member must be live in the model
